@@ -309,18 +309,22 @@ Inductive cmd :=
 | RpcCfgApply (cas : bool) (k : ckey) (content status cidx : N)
 | RpcCfgDelete (cas : bool) (k : ckey) (cidx : N).
 
-(* shouldSkipUpsertOperation: the stored entry equals the submitted one once the submitted RaftIndex
-   is overwritten with the stored one -- the supplied ModifyIndex is never looked at.
+(* shouldSkipOperation as repaired by fbf8c12.  An upsert is skipped when the stored entry equals the
+   submitted one (reflect.DeepEqual once the submitted RaftIndex is overwritten with the stored one);
+   an upsert-CAS additionally only when its expected index IS the stored ModifyIndex -- with any other
+   index the state store has to refuse it.
    (For kinds with a Status the comparison also sees the stored Hash field, which a plain upsert that
    inherited the status leaves stale; that is not modelled and the harness generates this command for
    kinds without a Status only.) *)
-Definition rpc_skip_upsert (k : ckey) (content status : N) (s : st) : bool :=
+Definition rpc_skip_upsert (cas : bool) (cidx : N) (k : ckey) (content status : N) (s : st) : bool :=
   match cfg s !! k with
-  | Some x => bool_decide (ce_content x = content) && bool_decide (ce_status x = if controlled k then status else 0)
+  | Some x => (negb cas || bool_decide (cidx = ce_modify x))
+              && bool_decide (ce_content x = content) && bool_decide (ce_status x = if controlled k then status else 0)
   | None => false
   end.
-(* shouldSkipOperation for Delete and DeleteCAS: "return (currentEntry == nil), nil" *)
-Definition rpc_skip_delete (k : ckey) (s : st) : bool := negb (bool_decide (is_Some (cfg s !! k))).
+(* Delete: "return (currentEntry == nil), nil"; DeleteCAS: "return false, nil" (the store answers) *)
+Definition rpc_skip_delete (cas : bool) (k : ckey) (s : st) : bool :=
+  negb cas && negb (bool_decide (is_Some (cfg s !! k))).
 
 (* a store method of the shape "(bool, error)": commit what was written and report it *)
 Definition bool_result (a : attempt) (s : st) : st * res :=
@@ -369,7 +373,7 @@ Section Apply.
     | FeatureGate policy status epi esi => bool_result (feature_gate_update idx policy status epi esi s) s
     | RpcCfgApply cas k content status cidx =>
       (* "if skip { *reply = true; return nil }" -- no Raft command is issued *)
-      if rpc_skip_upsert k content status s then (s, RBool true)
+      if rpc_skip_upsert cas cidx k content status s then (s, RBool true)
       else if cas then bool_result (ensure_cfg_cas graph_ok idx cidx false k content 0 s) s
       else match ensure_cfg graph_ok idx false k content 0 s with
            | Applied s' => (s', RBool true)
@@ -378,7 +382,7 @@ Section Apply.
            end
     | RpcCfgDelete cas k cidx =>
       (* "if skip { reply.Deleted = true; return nil }" *)
-      if rpc_skip_delete k s then (s, RBool true)
+      if rpc_skip_delete cas k s then (s, RBool true)
       else if cas then bool_result (delete_cfg_cas graph_ok idx cidx k s) s
       else match delete_cfg graph_ok idx k s with
            | Applied s' => (s', RBool true)
